@@ -397,6 +397,14 @@ def _k_blocks(depth: int, in_loop: bool, tier: str) -> Iterator[List[str]]:
             yield [f"k{depth} = 0", f"while k{depth} < 3:", f"    k{depth} += 1", f"    {v} = {zero}", f"    for j{depth} in range(k{depth}):", f"        {grow}", f"    mon.write({v})"]
             yield ["if x < y or x >= y:", f"    {v} = {zero}", f"    {grow}", f"    mon.write({v})"]
             yield [f"for i{depth} in range(2):", "    try:", f"        {v} = {zero}", f"        {grow}", "    except:", "        pass", f"    mon.write({v})"]
+    # the loop variable is a variable that already exists: it is assigned by the loop and keeps its last value afterwards
+    # (its old value when the range is empty); the limit may mention it
+    if depth >= 1:
+        yield ["for x in range(3):", "    y = y + x"]
+        yield ["for n in range(n):", "    x += 1", "mon.write(n)"]
+        yield ["for x in range(abs(y) % 3):", "    mon.write(x)"]
+        yield ["for y in range(2):", "    for x in range(y + 1):", "        mon.write(x + y)"]
+        yield [f"for i{depth} in range(2):", "    for x in range(2):", f"        y = y + x + i{depth}", "    mon.write(x)"]
     for tmpl in K_LOOPVAR:
         lv = [ln.replace("{d}", str(depth)) for ln in tmpl]
         yield [f"for i{depth} in range(3):"] + common.indent(lv + [f"mon.write(i{depth})"])
@@ -429,6 +437,7 @@ def gen_K(tier: str) -> Iterator[dict]:
 # ----------------------------------------------------------------------------------------------
 F_DEFS = {
     "inc": ["def inc(v):", "    return v + 1"],
+    "lastk": ["def lastk(k):", "    for k in range(2):", "        mon.write(k)", "    return k"],
     "add": ["def add(p, q):", "    return p + q"],
     "pick": ["def pick(p, q):", "    if p > q:", "        return p", "    return q"],
     "loop3": ["def loop3(v):", "    t = 0", "    for i in range(3):", "        t = t + v", "    return t"],
@@ -514,6 +523,7 @@ F_CALLS = [
     (["noisy"], ["noisy(1)", "-noisy(2)", "noisy(3) if a > 0 else noisy(4)"]),
     (["noisy"], ["abs(min(noisy(5), 2))", "not (noisy(6) > 3)"]),
     (["noisy", "add"], ["add(1, add(noisy(a), 2))", "add(noisy(1), noisy(2)) > 2 or noisy(9)"]),
+    (["lastk"], ["mon.write(lastk(9))", "mon.write(lastk(a))"]),
     (["bump2"], ["bump2()", "mon.write(x)", "bump2()"]),
     (["bump3"], ["mon.write(bump3(a))"]),
     (["bump4", "bump2"], ["bump4()", "bump2()"]),
